@@ -93,7 +93,8 @@ Print Assumptions C08_one_invocation_per_element_in_order.
      peer's closing tag ends it with nil; a received stream error is returned as
      that error;
    - inside an element, whatever the handler does (even if it ignores read
-     errors), the invocation fails, hence Serve ends with an error. *)
+     errors), the invocation fails, hence Serve ends with an error;
+   - the same for the framing elements of a WebSocket stream (last clauses). *)
 Theorem C08_stream_level_never_delivered :
   (forall ws l c0 pre e, scan ws c0 l = (pre, e) -> Forall (fun t => clean ws t = true) pre) /\
   (forall c hf toks e, top_err (c_ws c) toks = Some e ->
@@ -108,8 +109,23 @@ Theorem C08_stream_level_never_delivered :
      clean (c_ws c) (TStart n a) = true -> scan (c_ws c) 0 l = (pre, SEDirty t r) -> length l < fuel ->
      ends_match (n :: base) l = true ->
      exists v p', his c fuel hf (mkp (TStart n a :: l) pd false) = (HRInv v, p') /\ v_ret v <> None /\
-       (forall tk x, In (Some tk, x) (v_seen v) -> clean (c_ws c) tk = true)).
+       (forall tk x, In (Some tk, x) (v_seen v) -> clean (c_ws c) tk = true)) /\
+  (* WebSocket framing (RFC 7395): between elements the peer's <close/> ends Serve
+     with nil like </stream:stream> on TCP, any other framing element (<open/>)
+     ends it with the unexpected-restart error, and no handler is invoked; inside
+     an element every framing element, <close/> included, is a stream-level
+     construct (not clean, so the clause above applies) whose error is that
+     restart error, never the end of the input *)
+  (forall c hf n a rest, c_ws c = true -> bytes_eqb (nspace n) sv_ns_framing = true -> nlocal n = str "close" ->
+     s_invs (serve_all c hf (TStart n a :: rest)) = [] /\ s_ret (serve_all c hf (TStart n a :: rest)) = None) /\
+  (forall c hf n a rest, c_ws c = true -> bytes_eqb (nspace n) sv_ns_framing = true ->
+     in_list (nlocal n) sv_ws_eof_locals = false ->
+     s_invs (serve_all c hf (TStart n a :: rest)) = [] /\ s_ret (serve_all c hf (TStart n a :: rest)) = Some ERestart) /\
+  (forall ws n a r, ws && bytes_eqb (nspace n) sv_ns_framing = true ->
+     clean ws (TStart n a) = false /\ dirty_err ws (TStart n a) r = ERestart) /\
+  (sv_ws_eof_locals = [str "close"] /\ sv_ws_eof_top_only = true /\ sv_ws_eof_unrecognised = 0).
 Proof.
-  exact (conj c08_scan_clean (conj c08_top (conj c08_close (conj c08_stream_error_returned c08_nested_fatal)))).
+  exact (conj c08_scan_clean (conj c08_top (conj c08_close (conj c08_stream_error_returned (conj c08_nested_fatal
+          (conj c08_ws_close (conj c08_ws_restart (conj c08_ws_nested tbl_ws_close)))))))).
 Qed.
 Print Assumptions C08_stream_level_never_delivered.
